@@ -353,7 +353,7 @@ def eval_hard(ctx, it, impl, mod, stats, post):
         return
     if margin > 1e-6:
         ctx.tally("hard:robust")
-        pk = max(want)
+        pk = max(max(want), 1e-300)
         dm = max(abs(a - b) for a, b in zip(D, want))
         upd(stats, "hard cases: |impl-model|/peak on robust paths", dm / pk)
         if dm > 1e-7 * pk:
@@ -396,7 +396,7 @@ def eval_hard_equivariance(ctx, post, impl, mod, stats):
             exp = rotl(base, k)
             mo = mod[j]
             rob = mo[0] != "lstsq" and C.unfx(mo[6]) > 1e-6
-            pk = max(exp)
+            pk = max(max(exp), 1e-300)
             dm = max(abs(a - b) for a, b in zip(D, exp))
             rep = {"op": "mem2_newton_solver (equivariance)", "hard_case": hc, "N": n, "moments": m, "base_moments": m0,
                    "mirrored": mir, "rotation_bins": k}
@@ -482,7 +482,7 @@ def eval_rot(ctx, it, impl, mod, stats):
                 b = mirror_list(b)
             exp = rotl(b, k)
             D = rows[e]
-            pk = max(exp)
+            pk = max(max(exp), 1e-300)
             dm = max(abs(a - c) for a, c in zip(D, exp))
             key = "equivariance defect/peak: %s" % name
             if name in ("mem", "approximate"):
@@ -526,7 +526,7 @@ def eval_rot(ctx, it, impl, mod, stats):
                 margin = C.unfx(ex[6])
                 ctx.tally("newton-status:" + ex[0])
                 want = G.unfl(mo[2:]); D = outs["newton"][e]
-                pk = max(want)
+                pk = max(max(want), 1e-300)
                 dm = max(abs(a - c) for a, c in zip(D, want))
                 if margin > 1e-6:
                     upd(stats, "newton |impl-model|/peak (robust)", dm / pk)
@@ -544,7 +544,7 @@ def eval_rot(ctx, it, impl, mod, stats):
         if mo[0] == "D":
             want = G.unfl(mo[2:]); D = outs["mem"][0]
             if not any(math.isnan(v) for v in want):
-                pk = max(want); dm = max(abs(a - c) for a, c in zip(D, want))
+                pk = max(max(want), 1e-300); dm = max(abs(a - c) for a, c in zip(D, want))
                 upd(stats, "mem |impl-model|/peak", dm / pk)
                 if dm > 1e-5 * pk:
                     ctx.disagree("MEM differs from the closed form (max diff %r, peak %r)" % (dm, pk),
